@@ -4,8 +4,9 @@ Proof: generic theorems about `build` (first match), `addinstruction` and argume
 operand lists (Props/C06.lean) lifted to every constructor / Context method / package-level function
 of the CURRENT sources through kernel-checked obligations over the regenerated tables
 (Gen.FormsMeta, Gen.Forms_00..15, Gen.Ctors_00..07; Props/C06T/*, Props/C06Tables.lean).
-Correspondence: operand-class predicates exhaustively on a universe of ~470 operands x every operand
-type code; the three API layers called by name on matching and near-miss operand tuples (quick: all
+Correspondence: operand-class predicates exhaustively on a universe of ~1200 operands (hand-picked shapes + for
+every operand type a member and every one-attribute change of it, made of physical and of virtual registers) x every
+operand type code; the three API layers called by name on matching and near-miss operand tuples (quick: all
 functions outside the V block + fixed-register families + a seeded V sample, rest swept), a purity
 pass over all suffix variants of each opcode, branch attributes against the mnemonic, a corpus.
 Tie "shipped tables = generator output": internal/cmd/avogen built from the working tree regenerates
@@ -15,9 +16,9 @@ import difflib, os, shutil, subprocess
 from .. import core
 from ..modules import forms_modules, ctors_modules, REGS
 
-GO_FILES = ["c06.go", "c06_optab_ast.go", "c06_ctors_ast.go", "gen_forms.go", "zz_c06_wrappers.go"]
+GO_FILES = ["c06.go", "c06_optab_ast.go", "c06_ctors_ast.go", "c05derive.go", "gen_forms.go", "zz_c06_wrappers.go"]
 SHARDS = [f"AvoVerif.Props.C06T.Ctors{i:02d}" for i in range(8)] + [f"AvoVerif.Props.C06T.Forms{i:02d}" for i in range(16)]
-PROPS = ["AvoVerif.Props.C06"] + SHARDS + ["AvoVerif.Props.C06Tables"]
+PROPS = ["AvoVerif.Props.C06", "AvoVerif.Props.C06Classes"] + SHARDS + ["AvoVerif.Props.C06Tables"]
 
 GENERATE_DIRS = ("x86", "build", "internal/inst")   # directories whose `//go:generate avogen …` lines are replayed
 # the generated files the property speaks about (form table, constructors, Context methods / package-level functions,
@@ -27,10 +28,10 @@ EXPECTED_SHIPPED = {"x86/zoptab.go", "x86/zctors.go", "build/zinstructions.go", 
 
 # lower bounds on what a run must have judged (per differential run): a generator or selection change that silently
 # drops a stream shows up as a broken obligation instead of an empty, trivially green stream
-FLOORS_QUICK = {"match": 2500, "other-suffix-class": 300, "sibling": 100, "replace": 2500, "swap": 2000, "drop": 200, "extra": 200,
+FLOORS_QUICK = {"match": 2500, "other-suffix-class": 300, "sibling": 100, "derive": 2500, "replace": 2500, "swap": 2000, "drop": 200, "extra": 200,
                 "replay": 3000, "pure-checks": 3000, "sweep": 1500, "accepted": 8000, "rejected": 5000, "layers-checks": 12000,
                 "doc-checks": 15000, "attr-checks": 8000, "attr-checks-branch-or-terminal": 200}
-FLOORS_THOROUGH = dict(FLOORS_QUICK, **{"match": 9000, "replace": 9000, "swap": 8000, "sweep": 0, "replay": 20000, "pure-checks": 20000,
+FLOORS_THOROUGH = dict(FLOORS_QUICK, **{"match": 9000, "derive": 9000, "replace": 9000, "swap": 8000, "sweep": 0, "replay": 20000, "pure-checks": 20000,
                                         "accepted": 30000, "rejected": 25000, "layers-checks": 60000, "doc-checks": 60000})
 
 
@@ -51,8 +52,17 @@ def check_floors(ctx, tag):
     if st.get("functions_called_with_fixed_class", 0) < 60 or st.get("doc_checks_on_functions_with_fixed_class", 0) < 1000:
         low.append(f"functions with fixed-register/value classes: {st.get('functions_called_with_fixed_class')} called, "
                    f"{st.get('doc_checks_on_functions_with_fixed_class')} judged calls")
-    if st.get("class_checks", 0) < 15000 or st.get("class_checks_true", 0) < 600 or st.get("suffix_class_codes", 0) < 8:
+    if st.get("class_checks", 0) < 40000 or st.get("class_checks_true", 0) < 600 or st.get("suffix_class_codes", 0) < 8:
         low.append(f"class stream: {st.get('class_checks')} checks, {st.get('class_checks_true')} true, {st.get('suffix_class_codes')} suffix class codes")
+    # systematically derived near misses (harness/c05derive.go): every (operand type, one-attribute change) pair of the
+    # catalogue is in the universe of the exhaustive class stream, and most pairs reach the three layers by name
+    if st.get("universe_derived_pairs", 0) != st.get("universe_derived_pairs_total", -1) or st.get("universe_derived_pairs_total", 0) < 500 \
+            or st.get("universe_derived_operands", 0) < 400 or st.get("universe_types_without_catalogue", 1) != 0:
+        low.append(f"derived near misses in the universe: {st.get('universe_derived_pairs')} of {st.get('universe_derived_pairs_total')} "
+                   f"(type, change) pairs, {st.get('universe_derived_operands')} operands added, "
+                   f"{st.get('universe_types_without_catalogue')} operand types without catalogue")
+    if st.get("derive_pairs_called", 0) < (250 if ctx.tier == "quick" else 400):
+        low.append(f"derived near misses through the three layers: {st.get('derive_pairs_called')} (type, change) pairs")
     for k in ("missing-layer", "unrecognised-ctor-body", "bad-range", "no-sample"):
         if h.get(k, 0):
             low.append(f"{k}: {h[k]} functions could not be exercised")
@@ -166,11 +176,16 @@ def run(ctx):
         "(0) corpus/C06/*.txt: hand-picked call sequences (`call NAME operands…`) replayed in file order in one process "
         "through all three layers (purity across suffix variants, every kind of JMP operand, first/last opcode, rejection "
         "on a context with history, fixed-register classes and their siblings, wrong operand counts). "
-        "(i) operand-class predicates: every operand of a universe of ~470 (all physical registers of reg.Families, the "
+        "(i) operand-class predicates: every operand of a universe of ~1200 (all physical registers of reg.Families, the "
         "exported wrapped registers and converted views, virtual registers of every kind/width incl. identifiers above 7 "
         "and ill-sized ones, ~170 memory shapes with nil / GP / pseudo / vector / mask base and index, symbol without base, "
         "RSP / 8- / 16-bit / X16+ index registers, every constant type at boundary values, Rel at the int8/int32 limits, "
-        "LabelRef, nil, *Mem, a foreign Op) x every operand type code 0..max+2 through x86.VerifMatch (the generated "
+        "LabelRef, nil, *Mem, a foreign Op; + DERIVED near misses: for every operand type a member with every attribute present and "
+        "every one-attribute change of it per the catalogue of harness/c05derive.go — memory operands with base absent / 32- / 16- / "
+        "8-bit / vector / opmask / pseudo, index absent / general purpose / vector of each width / opmask / pseudo / SP, scale 0 or 3, "
+        "symbol, displacement beyond 32 bits, a register or constant instead; registers of every other width and kind, other views and "
+        "neighbours of the fixed registers; constants of every other type and just outside the range; branch targets just outside the "
+        "8-bit range — once made of physical and once of virtual registers) x every operand type code 0..max+2 through x86.VerifMatch (the generated "
         "oprndtype.Match switch) against the hand model — exhaustive over that universe; `sfxset`: the accepted suffix "
         "lists of every suffix class code 0..max+2 (sffxscls.SuffixesSet + sffxs.Strings) against the model's table. "
         "(ii) x86 constructor, Context method and package-level function called BY NAME (closures generated from /repo by "
@@ -182,7 +197,8 @@ def run(ctx):
         "opc.Forms/opc.String/sffxs.Strings; thorough: all functions, three seeds. "
         "FIRST PASS per function: one matching operand sample per form admitted by its suffixes, samples of forms of other "
         "suffix classes, per sample the same-width sibling of every fixed-register/value operand and 2-3 near misses "
-        "(operand replaced by a random universe operand, two operands swapped; operand dropped/added for variadic functions "
+        "(one operand replaced by a derived one-attribute change of a member of its class; operand replaced by a random universe "
+        "operand, two operands swapped; operand dropped/added for variadic functions "
         "in BOTH tiers).  SECOND PASS (purity): per family up to 4 (thorough 10) operand lists that were accepted, preferring "
         "those most members accept, given to EVERY member of the family in a shuffled order and back in reverse. "
         "JUDGEMENTS: `instr` = exact model comparison of the constructor (opcode, suffixes, operands, Inputs/Outputs in "
